@@ -298,6 +298,19 @@ class World:
                                     src = t['n']
                         if src:
                             out[norm_fnptr(tstr)].add(src)
+        # functions named in const tables (e.g. the parser's RULES array) are reified inside the const's own body, which is
+        # not a function: register them under their own signature
+        for c in self.crates.values():
+            for tpath, tree in c.const_tables.items():
+                for leaf in _tree_paths(tree):
+                    cand = leaf
+                    if cand not in self.fns:
+                        continue
+                    f = self.fns[cand]
+                    args = [norm_fnptr(f.crate.tstr(f.local_ty(i))) for i in range(1, f.argc + 1)]
+                    ret = norm_fnptr(f.crate.tstr(f.local_ty(0)))
+                    sig = 'fn(' + ', '.join(args) + ')' + ('' if ret == '()' else ' -> ' + ret)
+                    out[sig].add(cand)
         self._reified = out
         return out
 
@@ -555,6 +568,18 @@ def ty_walk_no_handles(c, tid, seen=None):
         yield from ty_walk_no_handles(c, a, seen)
     if 't' in t:
         yield from ty_walk_no_handles(c, t['t'], seen)
+
+
+def _tree_paths(tree):
+    if isinstance(tree, dict):
+        for k, v in tree.items():
+            if k == 'path' and isinstance(v, str):
+                yield v
+            else:
+                yield from _tree_paths(v)
+    elif isinstance(tree, list):
+        for x in tree:
+            yield from _tree_paths(x)
 
 
 def norm_fnptr(s):
